@@ -377,17 +377,42 @@ def r16_2_shuffle(cx):
     cx.report('R16.2', b, 'layout', why is None, 'match states are swapped to 4.. in order, then start_anchored = cursor-1, start_unanchored = cursor-2, max_match = cursor-3 (or the anchored start if it matches); one remap after all swaps (evaluated symbolically)' if why is None else 'shuffle: ' + why)
 
 
+_FACTS = [None]
+
+
+def _named_id(value, prefer=('util::primitives::StateID::ZERO', 'nfa::noncontiguous::NFA::FAIL')):
+    """the named id constant a literal stands for when a raw id value is compared with it (`match id { StateID::ZERO => .. }`)"""
+    f = _FACTS[0]
+    if f is None:
+        return None
+    vals = {c['path']: c.get('value') for c in f.j.get('consts', []) if c.get('ty') == 'util::primitives::StateID'}
+    for n in prefer:
+        if vals.get(n) == value:
+            return ('k', n)
+    return None
+
+
 def _c_eq(c):
     c = canon(c)
+    e = None
     if c[0] == 'op' and c[1] in ('Eq', 'Ne'):
-        return c[2], c[3], c[1] == 'Eq'
-    if is_call(c, r'PartialEq::(eq|ne)$'):
-        return c[2][0], c[2][1], short(c[1]).endswith('eq')
-    return None
+        e = (c[2], c[3], c[1] == 'Eq')
+    elif is_call(c, r'PartialEq::(eq|ne)$'):
+        e = (c[2][0], c[2][1], short(c[1]).endswith('eq'))
+    if e is None:
+        return None
+    a, d, pol = e
+    for x, y in ((a, d), (d, a)):
+        if isinstance(x, tuple) and x[0] == 'c' and isinstance(x[1], int) and not isinstance(x[1], bool) and y[0] == 'f' and y[2] == '0' and y[1][0] == 'f' and y[1][2] == '0':
+            k = _named_id(x[1])
+            if k is not None:
+                return (y[1][1], k, pol) if x is d else (k, y[1][1], pol)
+    return e
 
 
 def _tail_walk(cx, b, phi, head_expected, rule, tag):
     """phi must be the cursor of a loop `while matches[cur].link != ZERO { cur = matches[cur].link }` entered at head"""
+    _FACTS[0] = cx.facts
     h, l = phi[1], phi[2]
     if cstr(phi[3]) != head_expected:
         return 'the walk to the end of the match list starts at %s (expected the list head %s)' % (tstr(canon(phi[3]), 80), head_expected)
@@ -408,6 +433,7 @@ def _tail_walk(cx, b, phi, head_expected, rule, tag):
 def r03_6(cx):
     """new match entries are appended behind the LAST entry of a state's match list (order = pattern order; nothing dropped)"""
     from acverif.sym import summarize
+    _FACTS[0] = cx.facts
     b = cx.body('nfa::noncontiguous::NFA::add_match')
     SID, PID = cstr(param_at(b, 2)), cstr(param_at(b, 3))
     head = 'core::ops::Index::index(self.states, %s).matches' % SID
